@@ -49,7 +49,8 @@ def pupil_arrays(shape, support, seed, tag=0):
 
 
 def phasor(amp, opd, wl, mask=None):
-    f = np.asarray(amp, dtype=float) * np.exp(2j * np.pi * np.asarray(opd, dtype=float) / wl)
+    amp = np.asarray(amp)
+    f = (amp if np.iscomplexobj(amp) else np.asarray(amp, dtype=float)) * np.exp(2j * np.pi * np.asarray(opd, dtype=float) / wl)
     if mask is not None:
         f = f * (np.asarray(mask) != 0)
     return f
